@@ -12,6 +12,10 @@ import FordModel.Lemmas.Admonition
 import FordModel.Lemmas.Meta
 import FordModel.Lemmas.Attach
 import FordModel.Lemmas.ReaderDoc
+import FordModel.DocConvert
+import FordModel.Lemmas.DocConvert
+import FordModel.AttachIface
+import FordModel.Lemmas.AttachIface
 namespace Ford.C03
 open Ford
 
@@ -205,6 +209,45 @@ theorem single_line_then_blank_witness :
         = ([], ["Note: must be positive".toList, []]) := by
   decide
 
+/-- A comment **without** leading metadata is shown whole: when the first doc line is not blank,
+    not a `---`/`...` line and not a `key:` line (`META_RE`: at most three blanks, a word, a
+    colon), `read_metadata` — one-line rule included, both variants, any table of settings —
+    sets no metadata and hands every line on, the first one included.  No hypothesis on
+    `META_MORE_RE`: a first line indented by four or more blanks looks like a continuation
+    line, but there is no key to continue, so it ends the scan and is pushed back. -/
+theorem comment_without_header_is_body (tb : Bool) (fields : List Str) (l : Str) (rest : List Str)
+    (h1 : isBlank l = false) (h2 : metaEndRe l = false) (h3 : metaRe l = none) :
+    readMetadata tb fields (l :: rest) = ([], l :: rest) :=
+  readMetadata_first_not_meta tb fields l rest h1 h2 h3
+
+/-- The two layouts that start with such a line — a consistently wide-indented comment
+    (`!!    text`, which `textwrap.dedent` exists to support) and a comment that starts with an
+    indented code block: a first line of `n ≥ 4` blanks followed by a non-blank character is
+    never metadata, whatever follows; the comment reaches the converter complete. -/
+theorem wide_indented_comment_is_body (tb : Bool) (fields : List Str) (n : Nat) (hn : 4 ≤ n) (c : Char) (cs : Str)
+    (hc : isSpace c = false) (rest : List Str) :
+    readMetadata tb fields ((List.replicate n ' ' ++ c :: cs) :: rest)
+      = ([], (List.replicate n ' ' ++ c :: cs) :: rest) := by
+  obtain ⟨h1, h2, h3⟩ := wide_line n hn c cs hc
+  exact comment_without_header_is_body tb fields _ rest h1 h2 h3
+
+/-- worked instances on the generated table: a comment starting with a code block and a
+    wide-indented paragraph (also one that contains a colon) -/
+example :
+    readMetadata false Gen.entityFields ["     call foo(x)".toList, ([] : Str), "explanation".toList]
+      = ([], ["     call foo(x)".toList, ([] : Str), "explanation".toList]) ∧
+    readMetadata false Gen.entityFields ["    wide text".toList, "    more: text".toList]
+      = ([], ["    wide text".toList, "    more: text".toList]) := by
+  decide
+
+/-- … a wide-indented one-liner with a known key, and — the contrast — the same kind of wide
+    line *after* a key, where it is a continuation value -/
+example :
+    readMetadata false Gen.entityFields ["    author: nobody".toList] = ([], ["    author: nobody".toList]) ∧
+    readMetadata false Gen.entityFields ["author: A".toList, "    B".toList, ([] : Str), "    code".toList]
+      = ([("author".toList, ["A".toList, "B".toList])], ["    code".toList]) := by
+  decide
+
 /-- non-vacuity of the one-line theorems on the generated table: capitalised known key,
     unknown key, and a name that is an attribute but not a field of the settings class -/
 example : readMetadata false Gen.entityFields ["Author: Jane".toList] = ([("author".toList, ["Jane".toList])], []) ∧
@@ -271,6 +314,71 @@ example : (attach ['!'] ["module m".toList, "!! dm".toList, "integer :: a, b".to
        ("a".toList, [" dab".toList], []), ("b".toList, [" dab".toList], []), ("c".toList, [], [])] := by
   decide
 
+
+/-! ## Interface blocks with procedure bodies (`FortranInterface._cleanup`,
+    `FortranModuleProcedureInterface`) -/
+
+/-- The bookkeeping for interface blocks runs next to the attach model and never changes it:
+    every theorem above about `attach` holds unchanged for files that contain `interface` /
+    `abstract interface` blocks with procedure bodies. -/
+theorem interface_bookkeeping_preserves_attach (mark : Str) (items : List Str) :
+    (attachW mark items).a.ents = attach mark items :=
+  attachW_ents mark items
+
+/-- The comment of an `interface` / `abstract interface` block documents each interface the
+    block declares, complete: when what the block's own `read_metadata` left (`l :: rest`) does
+    not start with a line that can be read as metadata, every wrapper — any number of them, in
+    both variants of the code — gets exactly that text, and the shared list is what it was;
+    running `read_metadata` once more per wrapper loses nothing. -/
+theorem interface_wrappers_get_block_comment (wfix tb : Bool) (fields : List Str) (bm : MetaDict) (names : List Str)
+    (l : Str) (rest : List Str) (h1 : isBlank l = false) (h2 : metaEndRe l = false) (h3 : metaRe l = none) :
+    (wrapFold wfix tb fields bm names (l :: rest)).2 = l :: rest ∧
+      (wrapFold wfix tb fields bm names (l :: rest)).1.map (·.1) = names := by
+  induction names with
+  | nil => exact ⟨rfl, rfl⟩
+  | cons n ns ih =>
+    cases wfix with
+    | true => simpa [wrapFold] using ih
+    | false =>
+      have hr := readMetadata_first_not_meta tb fields l rest h1 h2 h3
+      simp only [wrapFold, Bool.false_eq_true, ↓reduceIte, hr]
+      exact ⟨ih.1, by simp [ih.2]⟩
+
+/-- Leading metadata lines of the block's comment set the metadata of each interface it
+    declares: with fixes/C03-interface-block-metadata.diff every wrapper carries the block's
+    metadata and the text is not searched for metadata a second time (any text). -/
+theorem interface_wrappers_get_block_metadata_when_fixed (tb : Bool) (fields : List Str) (bm : MetaDict)
+    (names L : List Str) :
+    wrapFold true tb fields bm names L = (names.map (fun n => (n, bm)), L) :=
+  wrapFold_fixed tb fields bm names L
+
+/-- Finding C03-interface-block-metadata-not-applied, as the code is: the block's comment
+    `author: Jane` / blank / `Note: read this` / `text` gives the block the metadata and the
+    three… two text lines, but the wrapper of its procedure `f` gets no `author`, and its second
+    `read_metadata` swallows the body line `Note: read this` from the list all of them share. -/
+theorem interface_wrapper_metadata_witness :
+    let c := readMetadata false Gen.entityFields
+      ["author: Jane".toList, ([] : Str), "Note: read this".toList, "text".toList]
+    c = ([("author".toList, ["Jane".toList])], ["Note: read this".toList, "text".toList]) ∧
+    wrapFold false false Gen.entityFields c.1 ["f".toList] c.2
+      = ([("f".toList, [("note".toList, ["read this".toList])])], ["text".toList]) ∧
+    wrapFold true false Gen.entityFields c.1 ["f".toList] c.2
+      = ([("f".toList, [("author".toList, ["Jane".toList])])], ["Note: read this".toList, "text".toList]) :=
+  ⟨by decide, by decide, by decide⟩
+
+/-- worked instance: an `abstract interface` block with a comment and two procedure bodies
+    (function `f`, subroutine `s`, both documented): registration order and docs — the block's own
+    entity is dropped, the wrappers follow the block's contents, functions first -/
+example :
+    (entDocsW false false Gen.entityFields false (attachW ['!'] ["module m".toList, "abstract interface".toList,
+        "!! block".toList, "subroutine s(a)".toList, "!! ds".toList, "integer :: a".toList, "!! da".toList,
+        "end subroutine".toList, "function f() result(r)".toList, "!! df".toList, "real :: r".toList,
+        "end function".toList, "end interface".toList, "integer :: v".toList, "!! dv".toList,
+        "end module".toList])).map (fun e => (e.1, e.2.2))
+    = [("<file>".toList, []), ("m".toList, []), ("s".toList, [" ds".toList]), ("a".toList, [" da".toList]),
+       ("f".toList, [" df".toList]), ("r".toList, []), ("f".toList, [" block".toList]),
+       ("s".toList, [" block".toList]), ("v".toList, [" dv".toList])] := by
+  decide +kernel
 
 /-! ## The four doc styles at the reader (worked instance; the general statement is covered by
     the differential correspondence of `readAll` with `FortranReader`, see notes/C03.md) -/
@@ -356,6 +464,83 @@ example :
     itemsOf (' ' :: "integer :: b".toList) = ["integer :: b".toList] ∧
     classify "integer :: b".toList = .leafAll ["b".toList] true := by
   simp only [DLine.wf, NoDoc]
+  decide
+
+/-! ## Which entities are converted (`_to_be_markdowned`, `markdownable_items`, `FortranType.correlate`,
+    `Project.markdown`) -/
+
+/-- The filter that decides which registered entities `Project.markdown` converts looks at no
+    attribute that a `correlate` method puts on another object (both lists regenerated from the
+    source on every run): what `correlate` does — e.g. the `Inherited from [[base]]` placeholder
+    `doc` that `FortranType.correlate` gives the base type's public components — cannot take an
+    entity out of the conversion. -/
+theorem conversion_filter_disjoint_from_correlate :
+    ∀ a ∈ Gen.correlateSetAttrs, a ∉ Gen.markdownSkipAttrs := by decide
+
+/-- Every registered entity that has none of the skip attributes (is not external) ends up
+    with the conversion of **its own** `doc_list` as `doc`, at its own position, whatever
+    stands before (`A`) and after (`B`) it in the file's registration list and however many
+    extending types put an inheritance placeholder on it during `correlate` (`phs`, any
+    texts): a placeholder never survives and never keeps the comment out. -/
+theorem registered_entity_gets_its_own_doc (fix : Bool) (conv : List Str → List Str) (A B : List CEnt) (e : CEnt)
+    (phs : List (List Str)) (hk : ∀ a ∈ Gen.markdownSkipAttrs, a ∉ e.attrs) :
+    ((convertAll Gen.markdownSkipAttrs conv (A ++ inheritSteps fix phs e :: B))[A.length]?).map (·.doc)
+        = some (some (conv e.docList)) ∧
+      A.length ∈ convIdx Gen.markdownSkipAttrs (A ++ inheritSteps fix phs e :: B) := by
+  have hs : docAttr ∉ Gen.markdownSkipAttrs := by decide
+  obtain ⟨ha, hd⟩ := inheritSteps_attrs_docList fix phs e
+  have hkeep : (inheritSteps fix phs e).keeps Gen.markdownSkipAttrs = true :=
+    keeps_of_no_skip_attr _ hs _ (by rw [ha]; exact hk)
+  refine ⟨?_, ?_⟩
+  · rw [convertAll_getElem?]
+    simp [hkeep, hd]
+  · rw [convIdx, convIdxFrom_mem]
+    exact ⟨inheritSteps fix phs e, Nat.zero_le _, by simp, hkeep⟩
+
+/-- Leading metadata lines set that entity's metadata — and it stays set: with
+    fixes/C03-inherited-component-metadata.diff no number of extending types changes the
+    metadata an entity got from its own comment, and the conversion does not touch it. -/
+theorem inherited_component_keeps_metadata_when_fixed (conv : List Str → List Str) (A B : List CEnt) (e : CEnt)
+    (phs : List (List Str)) :
+    ((convertAll Gen.markdownSkipAttrs conv (A ++ inheritSteps true phs e :: B)).map (·.md))[A.length]?
+      = some e.md := by
+  rw [convertAll_meta]
+  simp [inheritSteps_meta_fixed]
+
+/-- Finding C03-inherited-component-metadata-reset, as the code is: the first extending type
+    replaces the metadata of the base type's public component (`author: Jane` from its own
+    comment) by empty metadata; the comment text itself is still converted. -/
+theorem inherited_component_metadata_reset_witness :
+    (convertAll Gen.markdownSkipAttrs id [inheritStep false ["Inherited from [[base]]".toList]
+        (CEnt.mk [] ["text of a".toList] none [("author".toList, ["Jane".toList])])]).map (fun e => (e.doc, e.md))
+      = [(some ["text of a".toList], [])] ∧
+    (convertAll Gen.markdownSkipAttrs id [inheritStep true ["Inherited from [[base]]".toList]
+        (CEnt.mk [] ["text of a".toList] none [("author".toList, ["Jane".toList])])]).map (fun e => (e.doc, e.md))
+      = [(some ["text of a".toList], [("author".toList, ["Jane".toList])])] :=
+  ⟨by decide, by decide⟩
+
+/-- Finding C03-inherited-generic-binding-undocumented, as the code is: the copy of the base
+    type's generic binding `g` that the extending type lists is made before the conversion and
+    registered nowhere, so it has no `doc` although the binding itself (registered) gets
+    `doc g`; with fixes/C03-inherited-generic-binding-doc.diff the copy is converted as well. -/
+theorem inherited_generic_copy_undocumented_witness :
+    (convertAll Gen.markdownSkipAttrs id (registerCopy false [CEnt.mk [] ["doc g".toList] none []]
+        (CEnt.mk [] ["doc g".toList] none []))).map (·.doc) = [some ["doc g".toList]] ∧
+    copyDoc false Gen.markdownSkipAttrs id [CEnt.mk [] ["doc g".toList] none []] (CEnt.mk [] ["doc g".toList] none [])
+      = none ∧
+    copyDoc true Gen.markdownSkipAttrs id [CEnt.mk [] ["doc g".toList] none []] (CEnt.mk [] ["doc g".toList] none [])
+      = some ["doc g".toList] :=
+  ⟨by decide, by decide, by decide⟩
+
+/-- non-vacuity / contrast: the model follows the filter it is given — with `doc` among the
+    skip attributes the base type's component keeps the placeholder and loses its comment -/
+example :
+    let e : CEnt := ⟨[], ["words".toList], none, []⟩
+    (convertAll ["doc".toList] id [inheritStep false ["Inherited from [[base]]".toList] e]).map (·.doc)
+        = [some ["Inherited from [[base]]".toList]] ∧
+    (convertAll Gen.markdownSkipAttrs id [inheritStep false ["Inherited from [[base]]".toList] e]).map (·.doc)
+        = [some ["words".toList]] ∧
+    "doc".toList ∈ Gen.correlateSetAttrs := by
   decide
 
 /-! ## One Markdown instance for all entities (`Project.markdown`, `FortranBase.markdown`) -/
